@@ -20,6 +20,29 @@ fn read_fst(path: &Path) -> Option<Vec<Kv>> {
     .flatten()
 }
 
+/// A file name with the leading zeros of every number in it removed ("batch007" -> "batch7").
+fn canon_name(name: &str) -> String {
+    let mut out = String::new();
+    let cs: Vec<char> = name.chars().collect();
+    let mut i = 0;
+    while i < cs.len() {
+        if cs[i].is_ascii_digit() {
+            let mut j = i;
+            while j < cs.len() && cs[j].is_ascii_digit() {
+                j += 1;
+            }
+            let digits: String = cs[i..j].iter().collect();
+            let t = digits.trim_start_matches('0');
+            out.push_str(if t.is_empty() { "0" } else { t });
+            i = j;
+        } else {
+            out.push(cs[i]);
+            i += 1;
+        }
+    }
+    out
+}
+
 fn gen_rows(r: &mut StdRng, n: usize, nkeys: usize, dupfree: bool, allow_empty: bool) -> Vec<(String, u64)> {
     let mut pool: Vec<String> = vec![];
     // (a blank inside, in front of or behind a key is part of the key)
@@ -206,9 +229,22 @@ pub fn c19(log: &mut Log, seed: u64, tier: &str, fst_bin: &str, work: &str) {
             let tmpdir = std::fs::read_dir(&tmp).ok().and_then(|mut d| d.next()).and_then(|e| e.ok()).map(|e| e.path());
             let mut evs: Vec<Value> = std::fs::read_to_string(&tr).unwrap_or_default().lines().filter_map(|l| serde_json::from_str(l).ok()).collect();
             evs.sort_by_key(|e| e["seq"].as_u64().unwrap_or(0));
+            // temporary files are identified up to the spelling of the numbers in their names (the hook
+            // labels a batch "batch7"; a build that pads its file names writes "batch007"): names are
+            // compared with leading zeros of every number removed
+            let real: std::collections::HashMap<String, std::path::PathBuf> = tmpdir
+                .as_ref()
+                .and_then(|d| std::fs::read_dir(d).ok())
+                .map(|rd| rd.filter_map(|e| e.ok()).map(|e| (canon_name(&e.file_name().to_string_lossy()), e.path())).collect())
+                .unwrap_or_default();
             for mut e in evs {
-                let name = e["output"].as_str().unwrap_or("").to_string();
-                let content = tmpdir.as_ref().and_then(|d| read_fst(&d.join(&name)));
+                let name = canon_name(e["output"].as_str().unwrap_or(""));
+                e["output"] = json!(name);
+                if let Some(ins) = e["inputs"].as_array() {
+                    let c: Vec<Value> = ins.iter().map(|x| json!(canon_name(x.as_str().unwrap_or("")))).collect();
+                    e["inputs"] = Value::Array(c);
+                }
+                let content = real.get(&name).and_then(|p| read_fst(p));
                 match content {
                     Some(c) => {
                         e["content"] = jitems(&c);
